@@ -260,3 +260,25 @@ V('C08', 'p2wsh-predicate-length', SCRIPT, "return len(self) == 34 and self[0:2]
 V('C08', 'is-valid-swallows-nothing', SCRIPT, "        try:\n            list(self)\n        except CScriptInvalidError:\n            return False\n        return True", "        list(self)\n        return True", ['C08.Q1', 'C08.X1'], scope='CScript.is_valid')
 V('C08', 'cursor-not-advanced-past-data', SCRIPT, "                i += datasize\n\n                yield (opcode, data, sop_idx)", "                yield (opcode, data, sop_idx)", 'C08.P2', scope='CScript.raw_iter')
 V('C08', 'lastopcode-not-updated-for-pushes', SCRIPT, "                lastOpcode = opcode\n", "                if data is None:\n                    lastOpcode = opcode\n", 'C08.S1', scope='CScript.GetSigOpCount')
+
+# ------------------------------------------------------------------------------------------------ C16
+V('C16', 'coinbase-script-101', CORE, 'if not (2 <= len(tx.vin[0].scriptSig) <= 100):', 'if not (2 <= len(tx.vin[0].scriptSig) <= 101):', 'C16.T1', scope='CheckTransaction')
+V('C16', 'coinbase-script-1', CORE, 'if not (2 <= len(tx.vin[0].scriptSig) <= 100):', 'if not (1 <= len(tx.vin[0].scriptSig) <= 100):', 'C16.T1', scope='CheckTransaction')
+V('C16', 'sigops-limit-inclusive', CORE, 'if nSigOps > MAX_BLOCK_SIGOPS:', 'if nSigOps >= MAX_BLOCK_SIGOPS:', 'C16.B1', scope='CheckBlock')
+V('C16', 'revert-F9-loop-skips-coinbase', CORE, "    for i, tx in enumerate(block.vtx):\n        if i > 0 and tx.is_coinbase():", "    for tx in block.vtx[1:]:\n        if tx.is_coinbase():", 'C16.B1', scope='CheckBlock')
+V('C16', 'revert-F9-nonce-index-first', CORE, "            if len(coinbase_wit) < 1 or len(coinbase_wit[0].scriptWitness.stack) != 1:\n                raise CheckBlockError(\"CheckBlock() : invalid coinbase witnessScript\")\n            nonce = coinbase_wit[0].scriptWitness.stack[0]", "            nonce = coinbase_wit[0].scriptWitness.stack[0]\n            if len(coinbase_wit) < 1 or len(coinbase_wit[0].scriptWitness.stack) != 1:\n                raise CheckBlockError(\"CheckBlock() : invalid coinbase witnessScript\")", 'C16.G1', scope='CheckBlock')
+V('C16', 'duplicate-input-rule-dropped', CORE, "        if txin.prevout in vin_outpoints:\n            raise CheckTransactionError(\"CheckTransaction() : duplicate inputs\")\n", "", 'C16.T1', scope='CheckTransaction')
+V('C16', 'checkblock-raises-valueerror', CORE, 'raise CheckBlockError("CheckBlock() : vtx empty")', 'raise ValueError("CheckBlock() : vtx empty")', ['C16.X1', 'C16.B1'], scope='CheckBlock')
+V('C16', 'duplicate-tx-keyed-on-wtxid', CORE, 'txid = tx.GetTxid()', 'txid = tx.GetHash()', 'C16.B1', scope='CheckBlock')
+V('C16', 'pow-limit-bound-at-import', CORE, "def CheckProofOfWork(hash, nBits):", "def CheckProofOfWork(hash, nBits, params=coreparams):", 'C16.P1')
+V('C16', 'total-checked-after-loop', CORE, "        nValueOut += txout.nValue\n        if not MoneyRange(nValueOut):\n            raise CheckTransactionError(\"CheckTransaction() : txout total out of range\")", "        nValueOut += txout.nValue\n    if not MoneyRange(nValueOut):\n        raise CheckTransactionError(\"CheckTransaction() : txout total out of range\")", 'C16.T1', scope='CheckTransaction')
+V('C16', 'max-money-off-by-one', CORE, 'if txout.nValue > coreparams.MAX_MONEY:', 'if txout.nValue >= coreparams.MAX_MONEY:', 'C16.T1', scope='CheckTransaction')
+V('C16', 'timestamp-two-hours-inclusive', CORE, 'if block_header.nTime > cur_time + 2 * 60 * 60:', 'if block_header.nTime >= cur_time + 2 * 60 * 60:', 'C16.H1', scope='CheckBlockHeader')
+V('C16', 'weight-limit', CORE, 'MAX_BLOCK_WEIGHT = 4000000', 'MAX_BLOCK_WEIGHT = 4000001', 'C16.B1')
+V('C16', 'null-prevout-rule-on-first-input-only', CORE, "        for txin in tx.vin:\n            if txin.prevout.is_null():", "        for txin in tx.vin[:1]:\n            if txin.prevout.is_null():", 'C16.T1', scope='CheckTransaction')
+V('C16', 'merkle-check-skipped', CORE, "        if block.hashMerkleRoot != block.calc_merkle_root():\n            raise CheckBlockError(\"CheckBlock() : hashMerkleRoot mismatch\")\n", "", 'C16.B1', scope='CheckBlock')
+V('C16', 'is-null-ignores-index', CORE, "return ((self.hash == b'\\x00'*32) and (self.n == 0xffffffff))", "return (self.hash == b'\\x00'*32)", 'C16.D1', scope='COutPoint.is_null')
+V('C16', 'legacy-sigops-outputs-only', CORE, "    for txin in tx.vin:\n        nSigOps += txin.scriptSig.GetSigOpCount(False)\n", "", 'C16.D1', scope='GetLegacySigOpCount')
+V('C16', 'legacy-mode-decodes-op-n', SCRIPT, 'if fAccurate and (OP_1 <= lastOpcode <= OP_16):', 'if OP_1 <= lastOpcode <= OP_16:', 'C16.S1', scope='CScript.GetSigOpCount')
+V('C16', 'size-measured-with-witness', CORE, 'base_tx = CTransaction(tx.vin, tx.vout, tx.nLockTime, tx.nVersion)', 'base_tx = tx', 'C16.T1', scope='CheckTransaction')
+V('C16', 'commitment-compared-with-root-only', CORE, 'if commit != Hash(root + nonce):', 'if commit != Hash(root):', 'C16.B1', scope='CheckBlock')
